@@ -249,6 +249,11 @@ struct Case
     std::vector<std::string> skip;
     std::vector<std::string> once;
     std::vector<std::pair<std::string, std::string> > params;   // <dir>/params.txt: name<space>expression per line
+    // per-call options (<dir>/opts.txt), set through XalanTransformer's own setters: indent <n> | encoding <name> |
+    // noescape | omitmeta | validate.  The C API has no counterpart for them, so its section is skipped when any is set.
+    int optIndent = -1;
+    std::string optEncoding;
+    bool optNoEscape = false, optOmitMeta = false, optValidate = false, haveOpts = false;
 };
 
 static XalanTransformer* g_parser = 0;      // used only to re-parse byte results for the canonical comparison
@@ -397,6 +402,11 @@ static void runCase(const Case& c)
     std::ostringstream warn;
     tr.setWarningStream(&warn);
     tr.setErrorStream(&warn);
+    if (c.optIndent >= 0) tr.setIndent(c.optIndent);
+    if (!c.optEncoding.empty()) tr.setOutputEncoding(XalanDOMString(c.optEncoding.c_str()));
+    if (c.optNoEscape) tr.setEscapeURLs(XalanTransformer::eEscapeURLsNo);
+    if (c.optOmitMeta) tr.setOmitMETATag(XalanTransformer::eOmitMETATagYes);
+    if (c.optValidate) tr.setUseValidation(true);
     for (size_t i = 0; i < c.params.size(); ++i)     // top-level parameters are sticky across transformations (JIRA-451)
         tr.setStylesheetParam(XalanDOMString(c.params[i].first.c_str()), XalanDOMString(c.params[i].second.c_str()));
     const XalanCompiledStylesheet* cs = 0;
@@ -419,6 +429,7 @@ static void runCase(const Case& c)
     Quiet quiet;
     domParser.setErrorHandler(&quiet);
     domParser.setDoNamespaces(true);
+    if (c.optValidate) domParser.setValidationScheme(xc::XercesDOMParser::Val_Auto);
     domParser.setCreateEntityReferenceNodes(false);
     bool domOK = true;
     if (c.nodom) domOK = false;
@@ -448,6 +459,11 @@ static void runCase(const Case& c)
         try
         {
             rd->setFeature(xc::XMLUni::fgSAX2CoreNameSpaces, true);
+            if (c.optValidate)
+            {
+                rd->setFeature(xc::XMLUni::fgSAX2CoreValidation, true);
+                rd->setFeature(xc::XMLUni::fgXercesDynamic, true);
+            }
             rd->setFeature(xc::XMLUni::fgSAX2CoreNameSpacePrefixes, true);
             rd->setContentHandler(builder->getContentHandler());
             rd->setLexicalHandler(builder->getLexicalHandler());
@@ -495,6 +511,7 @@ static void runCase(const Case& c)
         }
 
     // ---- C API -------------------------------------------------------------------------------------------
+    if (!c.haveOpts)
     {
         XalanHandle h = CreateXalanTransformer();
         for (size_t i = 0; i < c.params.size(); ++i)
@@ -613,6 +630,19 @@ int main()
             c.xslText = readFile(c.xsl);
             c.treeCompare = mode == "xml";
             {
+                std::ifstream of((dir + "/opts.txt").c_str());
+                std::string ol;
+                while (std::getline(of, ol))
+                {
+                    std::istringstream oi(ol);
+                    std::string k, v;
+                    oi >> k >> v;
+                    if (k == "indent") { c.optIndent = std::atoi(v.c_str()); c.haveOpts = true; }
+                    else if (k == "encoding") { c.optEncoding = v; c.haveOpts = true; }
+                    else if (k == "noescape") { c.optNoEscape = true; c.haveOpts = true; }
+                    else if (k == "omitmeta") { c.optOmitMeta = true; c.haveOpts = true; }
+                    else if (k == "validate") { c.optValidate = true; c.haveOpts = true; }
+                }
                 std::ifstream pf((dir + "/params.txt").c_str());
                 std::string pl;
                 while (std::getline(pf, pl))
